@@ -230,6 +230,28 @@ def today_follows_the_clock(R):
                 return
 
 
+def reused_cells_history(R):
+    """Date functions on ONE executor fed through set_cells with the SAME Cell objects, whose values the caller changes between the
+    calls (the usual what-if loop): every answer must be that of the values supplied last."""
+    src, _ = I.translate([('S', {'A1': 2020, 'B1': 1, 'C1': 15, 'D1': '=DATE(A1,B1,C1)', 'D2': '=EDATE(D1,1)', 'D3': '=EOMONTH(D1,0)', 'D4': '=YEAR(D1)*100+MONTH(D1)'})])
+    e = I.executor(I.load(src))
+    a, b, c = I.Cell(0, 0, 0, 2020), I.Cell(0, 1, 0, 1), I.Cell(0, 2, 0, 15)
+    import calendar
+    for k, (y, m, d) in enumerate([(2021, 3, 31), (2024, 1, 31), (1999, 12, 1), (2024, 2, 29), (2100, 2, 28), (2023, 11, 30)]):
+        a.value, b.value, c.value = y, m, d
+        e.set_cells([a, b, c])
+        ny, nm = (y, m + 1) if m < 12 else (y + 1, 1)
+        want = {0: dt.datetime(y, m, d), 1: dt.datetime(ny, nm, min(d, calendar.monthrange(ny, nm)[1])),
+                2: dt.datetime(y, m, calendar.monthrange(y, m)[1]), 3: y * 100 + m}
+        for r, w in want.items():
+            R.count(('reused_cells', k, r), True)
+            got = I.outcome(lambda: e.get_cell(I.Cell(0, 3, r)).value)
+            if got != ('ok', w):
+                R.violation('one executor, set_cells called again with the same Cell objects carrying new values (%d, %d, %d): cell D%d evaluates to %r, expected %r'
+                            % (y, m, d, r + 1, got, w), {'recipe': {'kind': 'reused_cells'}, 'input_found': True})
+                return
+
+
 def run(R, tier):
     R.coverage['rule'] = ('(y,m,d) with m in -14..26 and d in -800..800 over leap/century/boundary years; date pairs in 1900-2100; month offsets '
                           '-60..60 (and fractional); holiday subsets; direct helper calls and formulas; plus datetime/calendar library facts for the '
@@ -249,14 +271,15 @@ def run(R, tier):
     C.correspond(R, HEADER, 'report', cases, 'c15', '_date/_year/_month/_day/_edate/_eomonth/_datedif/_network_days and their translators')
     today_check(R)
     today_follows_the_clock(R)
+    reused_cells_history(R)
     R.assumptions += ['the system clock is an oracle for TODAY (read before and after the call)',
                       'datetime/calendar/dateutil are modelled; their agreement with Base/Calendar.v is part of the correspondence (CCal cases)']
 
 
 def replay(R, rp):
     rc = rp.get('recipe') or (rp.get('examples') or [None])[0]
-    if rc is not None and rc.get('kind') == 'today_clock':
-        today_follows_the_clock(R)
+    if rc is not None and rc.get('kind') in ('today_clock', 'reused_cells'):
+        today_follows_the_clock(R) if rc['kind'] == 'today_clock' else reused_cells_history(R)
         for w, _ in R.violations:
             print(w)
         return 1 if R.violations else 0
